@@ -80,6 +80,12 @@ def grid(tier):
                     out.append({'mode': 'client', 'class': 'deadline_malformed_header', 'transport': 'h2', 'shim': {'cap': 65536, 'rq': 65536, 'wq': 65536, 'pend': 0},
                                 'shape': 'unary', 'server': server, 'client': client, 'req': {'meta': [], 'msgs': [[1]]},
                                 'script': {'init_meta': [], 'msgs': [[2]], 'end': {'ok': True}, 'fail_before': False, 'no_compress': False, 'latency_ms': L}})
+    # the order of builder calls must not matter: a tower layer is added to the server builder before / after the timeout is set
+    k = 0
+    for st in out:
+        if not st['server'].get('blackhole'):
+            st['server']['layer'] = ('none', 'after_timeout', 'before_timeout')[k % 3]
+            k += 1
     return out
 
 
